@@ -3,6 +3,7 @@ CONSTANTS
   Trees <- MTrees4
   Voters = {a, b, c, d}
   EqV = {a}
+  LeafBias = FALSE
   PVUnanimous = TRUE
   W <- UnitW
   MaxPV = 1
